@@ -13,7 +13,13 @@ spec -> code
 code -> spec
   The end-to-end runs chosen by TLC and seeded random runs over a wider vocabulary (all room versions, up to four
   forgeries: c15rec) are recorded, one line per action, and validated by Handshake_trace.tla, which carries the
-  abstract state of Handshake.tla from line to line."""
+  abstract state of Handshake.tla from line to line.
+identities
+  R's tables (membership, pending invites, membership of the allowed rooms) are keyed by the identity a member has in
+  the room, its sender ID; the scripted queriers answer per key (the facts of the scenario under the member's sender ID,
+  sc.oth under its user ID - another string in a pseudo-ID room - and under every other member).  Handshake!AskKey is the
+  design decision (every question is put under the member's sender ID); the designs that ask under the user ID or under
+  another member (Handshake_fault_*.cfg) must be refuted by TLC (FAULTS)."""
 import json
 import os
 import sys
@@ -22,6 +28,11 @@ from vlib.core import MachineryError
 
 FAMILIES = ["mj_basic", "mj_restricted", "mj_qerr", "ml", "sj_shape", "sj_trust", "inv", "inv_same", "inv3", "sj_keys", "inv_keys",
             "mjv", "mlv", "sjv", "invv", "sj_pseudo", "sj_env", "inv_env"]
+
+
+# planted design faults (cfg, the invariant TLC must refute): the handlers ask R's tables under another identity
+FAULTS = [("sj_uid", "SendJoinExact"), ("inv3_uid", "InviteV3Exact"), ("mj_uid", "TemplateAuthoriser"),
+          ("sj_peer", "OtherIdentitiesIrrelevant")]
 
 
 def _runs(path):
@@ -151,6 +162,9 @@ def run(ctx):
         "signed' is read as: by a mapping that server signed), HandleInviteV3 through inv3; PerformJoin / PerformInvite end to end "
         "are driven for the 15 room versions whose sender IDs are user IDs; join_authorised_via_users_server is not used in "
         "pseudo-ID send_joins (the library has no pseudo-ID reading of it)",
+        "identities: the membership / pending-invite / allowed-room tables of the resident server are keyed by sender ID; 'the "
+        "target', 'the user' of the property is the member as the room knows it (the join's sender = state key, the invited "
+        "user's sender ID): rows under the member's user ID (pseudo-ID rooms) or under other members decide nothing",
         "a failing verifier, membership querier or room querier leaves a conjunct unestablished: the request must be refused "
         "(membership querier: only where the conjunct needs it - a known room for invites); HandleMakeJoin's user-ID querier and "
         "the invite handler's state querier are always answering",
@@ -167,7 +181,7 @@ def run(ctx):
     ctx.notes["hardening"] = ("per-version families mjv/mlv/sjv/invv/inv3 and one-forgery end-to-end runs over all 16 resp. 15 registered "
                               "room versions in the quick tier; empty vs absent lists; key-validity boundaries; several signatures; "
                               "retries; near-coincident server names; content without effect; failing queriers and key ring; "
-                              "PerformInvite wired to HandleInvite")
+                              "PerformInvite wired to HandleInvite; queriers keyed by identity (sender ID / user ID / other member) with opposite rows")
     ctx.notes["rule"] = (
         "guard products: every scenario of the Handshake_gen families %s within the cfg bounds (each parameter 2-6 classes, all "
         "combinations per family, room versions %s); end-to-end: every behaviour of Handshake!Spec with at most 2 Forge actions%s; "
@@ -205,6 +219,13 @@ def run(ctx):
             e2e(r.records, "tlc%d" % n, step)
             total += len(r.records)
     ctx.notes["scenarios_replayed"] = total
+    # design check: asking the tables under another identity than the member's sender ID is refuted by the property
+    faults = [FAULTS[ctx.seed % len(FAULTS)]] if quick else FAULTS
+    for name, inv in faults:
+        fr = ctx.tlc("Handshake_gen", "Handshake_fault_%s.cfg" % name, allow_violation=True, expect_records=False, workers=2, timeout=600)
+        if fr.violated != inv:
+            raise MachineryError("planted design fault %s: TLC should refute %s, it reports %s" % (name, inv, fr.violated))
+    ctx.notes["planted_model_faults_refuted"] = ["%s->%s" % f for f in faults]
     # seeded random runs beyond the TLC bounds
     n = 1000 if quick else 25000
     t2 = os.path.join(ctx.scratch, "c15_rec_trace.ndjson")
